@@ -32,10 +32,17 @@ type ProcSpec struct {
 	Ops                  []string
 	Mode                 string
 	Threaded             int
+	// KeepOrder: the opcode list is used in the order given (a machine JSON keeps its file order on load) instead of
+	// being sorted by name
+	KeepOrder bool `json:",omitempty"`
 }
 
 func (p ProcSpec) String() string {
-	return fmt.Sprintf("ops=%s mode=%s Rsize=%d R=%d N=%d M=%d L=%d O=%d Thr=%d", strings.Join(p.Ops, ","), p.Mode, p.Rsize, p.R, p.N, p.M, p.L, p.O, p.Threaded)
+	ko := ""
+	if p.KeepOrder {
+		ko = " (list order kept)"
+	}
+	return fmt.Sprintf("ops=%s%s mode=%s Rsize=%d R=%d N=%d M=%d L=%d O=%d Thr=%d", strings.Join(p.Ops, ","), ko, p.Mode, p.Rsize, p.R, p.N, p.M, p.L, p.O, p.Threaded)
 }
 
 type Job struct {
@@ -169,7 +176,7 @@ func buildBM(j Job) (*bondmachine.Bondmachine, *bondmachine.Config, string, erro
 	}
 	b.Rsize = j.Procs[0].Rsize
 	for i, p := range j.Procs {
-		m, err := bmgen.NewMachine(bmgen.ArchSpec{Rsize: p.Rsize, R: p.R, N: p.N, M: p.M, L: p.L, O: p.O, Ops: p.Ops, Modes: []string{p.Mode}, Threaded: p.Threaded})
+		m, err := bmgen.NewMachine(bmgen.ArchSpec{Rsize: p.Rsize, R: p.R, N: p.N, M: p.M, L: p.L, O: p.O, Ops: p.Ops, Modes: []string{p.Mode}, Threaded: p.Threaded, KeepOrder: p.KeepOrder})
 		if err != nil {
 			return nil, nil, "", err
 		}
